@@ -73,7 +73,8 @@ CLAIMED.update({
               "instances (same edge set, weights, incident nodes, names, counts, num_edges = |edges|, num_voters = num_alternatives), "
               "byte-for-byte idempotence, header_only, insertion sort correctness, type gate. Differential runs with random 64-bit "
               "weights compared bitwise, exponent-notation weights, overwrite histories on one object.",
-              "float(repr(x)) == x and the character set of repr(x) are Section hypotheses tested on every generated weight, not proved.", "C09"),
+              "Node ids are Z (either sign; named alternatives non-negative). float(repr(x)) == x and the character set of repr(x) are Section "
+              "hypotheses tested on every generated weight, not proved.", "C09"),
     "C12": _r("Coq theorems: minimum alternative-deletion and voter-deletion numbers defined by verified enumeration over the proved "
               "single-peakedness decider (correct for every size), certificate checkers equivalent to 'deletion set of the reported size + "
               "remaining profile single-peaked on the returned axis', certificate => upper bound, monotonicity under restriction (lower "
@@ -81,8 +82,8 @@ CLAIMED.update({
               "for m<=5/6 and their certificates checked up to m=10/12.",
               "Deepening: the ILP constraint builders are mirrored and proved sound and complete (ILP optimum = reference optimum, decoding of axis "
               "and deletion set); the constraint multiset python-mip receives is compared with the mirror. the dynamic programme of k_alternative_deletion is mirrored and proved sound "
-              "(elp_sound: valid certificate, upper bound) and compared with the code at every size; its optimality and CBC (max_gap 0.05) are "
-              "not proved; fewer than 20 alternatives as the property requires.", "C12"),
+              "(elp_sound: valid certificate, upper bound) and compared with the code at every size; its optimality is compared with a fast verified reference "
+              "(fast_min_alt = min_alt_del, proved) up to m = 15; CBC (max_gap 0.05) is trusted; fewer than 20 alternatives as the property requires.", "C12"),
     "C13": _r("Coq theorems: single-peaked-on-a-tree specification, connectivity test, tree and witness checkers proved equivalent to the "
               "spec (orientation/order of edges irrelevant), candidate-tree enumeration proved complete, decider correct for every size, "
               "invariance. is_single_peaked_on_tree compared with the decider (exhaustive m<=4, random m<=7/8), every returned edge list "
@@ -123,7 +124,11 @@ CLAIMED.update({
               "code's construction as witness, is_part/is_2_part mirrored and proved; recognisers proved correct relative to a solver "
               "contract. solve_consecutive_ones/isC1P compared with the decider up to 7/8 columns and through the checker up to 40x40 "
               "(planted positives, Tucker-core negatives); all eight recognisers on exhaustive small and random instances.",
-              "The PQ-tree internals are not modelled (compared with the reference and through the verified checker only).", "C05"),
+              "Deepening: the PQ-tree (reorder_sets, P/Q.set_contiguous with their two passes and in-place flatten, simplify, reverse) is mirrored "
+              "and proved total and SOUND (pq_reorder_sound: every returned arrangement keeps each element's sets consecutive; chained down to "
+              "solve_consecutive_ones, isC1P and the six recognisers: pq_*_sound); the implementation's reorder_sets result must equal the "
+              "mirror's exactly on every family. PQ-tree COMPLETENESS (ValueError only if no arrangement exists) is not proved: compared with "
+              "the proved references up to 7/8 columns and with planted certificates beyond.", "C05"),
     "C10": _m("Coq theorems about the entry-point layer on top of the three parser models: type gate (TypeError, nothing loaded), "
               "dispatch on the extension, the three line splitters give the same stripped lines, all parsers depend on a line only "
               "through strip (and remove-spaces for ballot lines), every entry point on every restyling (LF/CRLF/CR, padding, blanks at "
@@ -144,15 +149,18 @@ CLAIMED.update({
               "bounds 1 <= min <= ceil(m/2), the brute-force contract (valid + minimum iff <= k, else None), invariance. "
               "k_alt_partition_approx through the checker up to m=25; k_alternative_partition_brut_force vs the reference for every k "
               "(exhaustive m<=5, fixed case set m=6..9).",
-              "The DFS is not mirrored (compared with the proved reference for every k); the dynamic programme behind the approx function is "
-              "mirrored and proved sound (approx_valid). A non-minimality defect of the brute force found by this check was repaired "
-              "(175f7ec); no open finding.", "C18"),
+              "Deepening: the repaired brute-force DFS is mirrored and proved sound for every size (bf_sound, bf_none_when_infeasible, "
+              "bf_some_bounds); its minimality is proved by kernel evaluation on small domains only (bf_complete_min_partial_small) and otherwise "
+              "compared with the proved reference for every k; the approx loop is mirrored and proved valid (approx_valid). A non-minimality "
+              "defect of the brute force found by this check was repaired (175f7ec); no open finding.", "C18"),
     "C19": _r("Coq theorems: embedding checker over exact rationals equivalent to 'every voter ranks by strictly increasing distance', "
               "Euclidean => single-peaked and single-crossing (necessary conditions), and an exact decision procedure "
               "(Fourier-Motzkin feasibility proved sound and complete; eucl_decide_correct) for every size. is_one_euclidean compared "
               "with the exact decider up to m=6, n=12; every returned map converted exactly and checked; planted positives beyond.",
-              "The implementation's own algorithm (colouring, LP via CBC, placement of unconstrained alternatives) is not mirrored: it is "
-              "tied to the proved decider and checker by a deterministic campaign (constant seed; exact verdict comparison up to m=6, n=12, "
+              "Deepening: is_one_euclidean itself (single-crossing precheck, colouring, axis, LP as a parameter, runs and distance bands) is "
+              "mirrored and proved sound, complete and independent of Python's set iteration order (eucl_algo_sound, eucl_algo_complete, "
+              "eucl_algo_verdict_exact: mirror verdict = eucl_decide); CBC is trusted to behave like a sound and complete LP oracle. The code is "
+              "tied to the proved decider, mirror and checker by a deterministic campaign (constant seed; exact verdict comparison up to m=6, n=12, "
               "witness check and planted positives up to m=12). Four defects found this way were repaired (5a8bee2, 3211aad, 4ca33bd, "
               "74e9e2c); no open finding remains. Labels must be 1..m. ", "C19"),
 })
